@@ -277,6 +277,8 @@ pub fn worker(prop: &Prop, tier: Tier, seed: u64, runs: impl Iterator<Item = u64
 }
 
 pub fn exec_file(prop: &Prop, path: &str) {
+    // same environment as a worker: a run that died of the address-space cap there dies here too
+    cap_address_space();
     let text = std::fs::read_to_string(path).unwrap_or_else(|e| harness_error(&format!("read {path}: {e}")));
     let v: Value = serde_json::from_str(&text).unwrap_or_else(|e| harness_error(&format!("parse {path}: {e}")));
     let sc = if v.get("scenario").is_some() && v.get("property").is_some() { v["scenario"].clone() } else { v };
@@ -663,14 +665,23 @@ pub fn check(prop: &Prop, tier: Tier) -> i32 {
     for (class, (run, v, sc)) in unknown.iter().take(4) {
         let sc = sc.clone().unwrap_or_else(|| scenario_for(prop, tier, seed, *run));
         // 1. confirm in a fresh process
-        let rep = exec_fresh(prop, &sc, &scratch);
-        let reproduced = rep.violations.iter().any(|x| &x.class == class);
+        let mut rep = exec_fresh(prop, &sc, &scratch);
+        let mut reproduced = rep.violations.iter().any(|x| &x.class == class);
         if !reproduced && class != "cross-process-divergence" {
-            // Could still be a known finding in disguise or a nondeterministic harness: report loudly.
-            harness_error(&format!(
-                "violation {class} of run {run} did not reproduce in a fresh process (detail: {})",
-                v.detail
-            ));
+            // An engine whose behaviour depends on addresses or hash order fails only in some
+            // processes: try a few more before giving up on a minimal replay.
+            for _ in 0..6 {
+                rep = exec_fresh(prop, &sc, &scratch);
+                reproduced = rep.violations.iter().any(|x| &x.class == class);
+                if reproduced {
+                    break;
+                }
+            }
+            if !reproduced {
+                println!(
+                    "  note: violation {class} of run {run} did not reproduce in 7 fresh processes: the outcome depends on something outside the scenario (addresses, hash order); the replay file holds the unshrunk scenario"
+                );
+            }
         }
         // 2. shrink
         let (min_sc, tried) = if reproduced {
